@@ -303,17 +303,17 @@ def check(ctx: Ctx) -> list[RuleResult]:
     pn = pname[0] if pname else "dev_id"
     A_EXC = next((a for a in tabg.atoms if a.replace(" ", "") == f"{pn}inself._exclude"), None)
     A_ENF = next((a for a in tabg.atoms if a == "self._enforce_known_list"), None)
-    A_INC = next((a for a in tabg.atoms if a.replace(" ", "") in (f"{pn}notinself._include", f"{pn}inself._include")), None)
+    A_INC = next((a for a in tabg.atoms if a.replace(" ", "") == f"{pn}inself._include"), None)
     if A_EXC is None or A_ENF is None or A_INC is None:
         r5.fail(f"{cfl.short}:clauses", cfl.loc(), f"{cfl.short} no longer tests the block list, the enforcement flag and the known list (tests found: {tabg.atoms})")
     else:
-        inc_neg = "notin" in A_INC.replace(" ", "")
+        inc_neg = False  # canonical atom: `<id> in self._include`
         def refused(r) -> bool:
             return isinstance(r, tuple) and len(r) == 2 and r[0] == "raise" and "LookupError" in r[1]
         others = [a for a in tabg.atoms if a not in (A_EXC, A_ENF, A_INC)]
         lax_block = [a for a, r in tabg.rows if a[A_EXC] and not refused(r)]
         # enforced and unlisted -> refused, whatever the other tests say, except the documented gateway exemption (an atom on hgi)
-        lax_enf = [a for a, r in tabg.rows if a[A_ENF] and (bool(a[A_INC]) == inc_neg) and not refused(r) and not any("hgi" in o and not a[o] for o in others)]
+        lax_enf = [a for a, r in tabg.rows if a[A_ENF] and (bool(a[A_INC]) == inc_neg) and not refused(r) and not any("hgi" in o and a[o] for o in others)]
         if lax_block:
             r5.fail(f"{cfl.short}:block-listed-passes", cfl.loc(), f"{cfl.short} lets a block-listed id through: " + tabg.describe({k: v for k, v in lax_block[0].items() if k != "__effects__"})[:240])
         elif lax_enf:
